@@ -35,7 +35,9 @@ type cvDomain struct {
 	Views []cvView `json:"views"`
 }
 
-var cvStatus = map[string]cluster.MemberStatus{"up": cluster.MemberStatusUp, "suspect": cluster.MemberStatusSuspect}
+var cvStatus = map[string]cluster.MemberStatus{"up": cluster.MemberStatusUp, "suspect": cluster.MemberStatusSuspect,
+	"joining": cluster.MemberStatusJoining, "unreachable": cluster.MemberStatusUnreachable, "down": cluster.MemberStatusDown,
+	"leaving": cluster.MemberStatusLeaving, "exiting": cluster.MemberStatusExiting, "removed": cluster.MemberStatusRemoved}
 
 // time ranks: member timestamps are small offsets from a fixed base; view timestamp rank 1 is
 // "now" (inside any clock-skew window), rank 2 is ten hours ahead (outside a one-hour window).
@@ -140,10 +142,11 @@ func checkC17(c *core.Ctx) {
 	}
 	c.MC("MC_CV/"+cfg, r)
 
-	jobs := []cvJob{{"A", 0, false}, {"B", 1, false}, {"B", 2, false}, {"D", 0, true}}
+	// (E: every member in one of four statuses - up, suspect, leaving, removed - with two logical clocks)
+	jobs := []cvJob{{"A", 0, false}, {"B", 1, false}, {"B", 2, false}, {"D", 0, true}, {"E", 0, false}}
 	if c.Thorough() {
 		jobs = []cvJob{{"A", 0, false}, {"A", 1, false}, {"A", 2, false}, {"B", 0, false}, {"B", 1, true}, {"B", 2, true},
-			{"C", 0, false}, {"D", 0, true}, {"D", 1, true}, {"D", 2, true}, {"D", 1, false}}
+			{"C", 0, false}, {"D", 0, true}, {"D", 1, true}, {"D", 2, true}, {"D", 1, false}, {"E", 0, false}, {"E", 1, false}, {"E", 2, true}}
 	}
 	rng := rand.New(rand.NewSource(c.Seed))
 	doms := map[string]*cvDomain{}
